@@ -344,6 +344,19 @@ func checkStringAccumulation(c *Ctx, p *core.Prog, fns []*ssa.Function) {
 					if found {
 						c.R.Fail("R10.6", core.ShortFn(fn)+": string accumulated by concatenation in a loop", p.Pos(e.Pos()), "each iteration copies the text accumulated so far: the loop is quadratic in the size of its input, and a very long line or document makes the call take minutes")
 					}
+					// e = strings.ReplaceAll(phi, k, k') with k' a proper prefix (or suffix) of k, repeated while the string
+					// still contains k: each pass copies the whole string and can take out as little as one character of a
+					// run ("httpsss...s"), so the loop is quadratic in the length of the word
+					if call, ok := e.(*ssa.Call); ok {
+						if n := core.StaticCalleeName(&call.Call); (n == "strings.ReplaceAll" || n == "strings.Replace") && call.Call.Args[0] == ssa.Value(phi) {
+							from, ok1 := core.ConstString(call.Call.Args[1])
+							to, ok2 := core.ConstString(call.Call.Args[2])
+							if ok1 && ok2 && len(to) < len(from) && to != "" && (strings.HasPrefix(from, to) || strings.HasSuffix(from, to)) {
+								c.R.Fail("R10.6", core.ShortFn(fn)+": a string is rewritten to a fixed point by whole-string replacement passes", p.Pos(e.Pos()),
+									fmt.Sprintf("replacing %q by %q until none is left takes one pass over the whole string per character of a run (%q followed by many %q): quadratic in the length of a word, a megabyte-long word makes the call take minutes", from, to, from, strings.TrimPrefix(from, to)))
+							}
+						}
+					}
 				}
 			}
 		}
